@@ -93,6 +93,73 @@ def check_program(arg):
     return []
 
 
+# adjacent keywords: the blank between them is layout -- any number of blanks, and none at all where the standard makes
+# the blank optional (Fortran 2003 3.3.1 / Fortran 2008 3.3.2.2), must give the tree of the one-blank spelling
+COMPOUND = {
+    "block_data": ("f2003", True, "{block@data} bd\ncommon /c/ x\nend block data bd\n"),
+    "end_block_data": ("f2003", True, "block data bd\ncommon /c/ x\n{end@block@data} bd\n"),
+    "double_precision_decl": ("f2003", True, "program p\n{double@precision} :: d\nend program p\n"),
+    "double_precision_old": ("f2003", True, "program p\n{double@precision} d, e\nend program p\n"),
+    "double_precision_function": ("f2003", True, "{double@precision} function f(x)\nf = x\nend function f\n"),
+    "else_if": ("f2003", True, "program p\nif (a) then\nx = 1\n{else@if} (b) then\nx = 2\nend if\nend program p\n"),
+    "else_where": ("f2003", True, "program p\nwhere (a > 0)\na = 1\n{else@where}\na = 2\nend where\nend program p\n"),
+    "end_associate": ("f2003", True, "program p\nassociate (z => x)\ny = z\n{end@associate}\nend program p\n"),
+    "end_do": ("f2003", True, "program p\ndo i = 1, 2\nx = 1\n{end@do}\nend program p\n"),
+    "end_enum": ("f2003", True, "program p\nenum, bind(c)\nenumerator :: a\n{end@enum}\nend program p\n"),
+    "end_file": ("f2003", True, "program p\n{end@file} 10\nend program p\n"),
+    "end_forall": ("f2003", True, "program p\nforall (i = 1:2)\na(i) = 1\n{end@forall}\nend program p\n"),
+    "end_function": ("f2003", True, "function f(x)\nf = x\n{end@function} f\n"),
+    "end_if": ("f2003", True, "program p\nif (a) then\nx = 1\n{end@if}\nend program p\n"),
+    "end_interface": ("f2003", True, "module m\ninterface\nsubroutine s()\nend subroutine s\n{end@interface}\nend module m\n"),
+    "end_module": ("f2003", True, "module m\n{end@module} m\n"),
+    "end_program": ("f2003", True, "program p\n{end@program} p\n"),
+    "end_select": ("f2003", True, "program p\nselect case (i)\ncase (1)\nx = 1\n{end@select}\nend program p\n"),
+    "end_subroutine": ("f2003", True, "subroutine s()\n{end@subroutine} s\n"),
+    "end_type": ("f2003", True, "module m\ntype t\ninteger :: i\n{end@type} t\nend module m\n"),
+    "end_where": ("f2003", True, "program p\nwhere (a > 0)\na = 1\n{end@where}\nend program p\n"),
+    "go_to": ("f2003", True, "program p\n{go@to} 10\n10 continue\nend program p\n"),
+    "if_go_to": ("f2003", True, "program p\nif (a) {go@to} 10\n10 continue\nend program p\n"),
+    "in_out": ("f2003", True, "subroutine s(a)\nreal, intent({in@out}) :: a\nend subroutine s\n"),
+    "select_case": ("f2003", True, "program p\n{select@case} (i)\ncase (1)\nx = 1\nend select\nend program p\n"),
+    "select_type": ("f2003", True, "subroutine s(o)\nclass(*) :: o\n{select@type} (o)\ntype is (integer)\nx = 1\nend select\nend subroutine s\n"),
+    "end_block": ("f2008", True, "program p\nblock\nx = 1\n{end@block}\nend program p\n"),
+    "end_critical": ("f2008", True, "program p\ncritical\nx = 1\n{end@critical}\nend program p\n"),
+    "end_submodule": ("f2008", True, "module m\nend module m\nsubmodule (m) sm\n{end@submodule} sm\n"),
+    "error_stop": ("f2008", False, "program p\n{error@stop}\nend program p\n"),
+    "do_concurrent": ("f2008", False, "program p\n{do@concurrent} (i = 1:2)\nx = 1\nend do\nend program p\n"),
+    "do_while": ("f2003", False, "program p\n{do@while} (a)\nx = 1\nend do\nend program p\n"),
+    "type_is": ("f2003", False, "subroutine s(o)\nclass(*) :: o\nselect type (o)\n{type@is} (integer)\nx = 1\nend select\nend subroutine s\n"),
+    "class_default": ("f2003", False, "subroutine s(o)\nclass(*) :: o\nselect type (o)\n{class@default}\nx = 1\nend select\nend subroutine s\n"),
+    "case_default": ("f2003", False, "program p\nselect case (i)\n{case@default}\nx = 1\nend select\nend program p\n"),
+    "implicit_none": ("f2003", False, "program p\n{implicit@none}\nend program p\n"),
+    "module_procedure": ("f2003", False, "module m\ninterface g\n{module@procedure} s\nend interface g\ncontains\nsubroutine s()\nend subroutine s\nend module m\n"),
+    "real_function": ("f2003", False, "{real@function} f(x)\nf = x\nend function f\n"),
+    "recursive_subroutine": ("f2003", False, "{recursive@subroutine} s()\nend subroutine s\n"),
+    "use_intrinsic": ("f2003", False, "program p\n{use,@intrinsic@::} iso_c_binding\nend program p\n"),
+}
+
+
+def compound_probe(name):
+    """(signature, description, replay) for every blank count whose tree differs from the one-blank spelling"""
+    import re
+    import fp
+    std, optional, tpl = COMPOUND[name]
+    mk = lambda nb: re.sub(r"\{([^}]*)\}", lambda m: m.group(1).replace("@", " " * nb), tpl)   # noqa
+    ref = fp.parse(mk(1), std=std)
+    out = []
+    if ref.kind != "tree":
+        # the canonical spelling itself is rejected (IN OUT): recorded under the same signature
+        return [("extra_blanks_in_compound_keyword:" + name, "the one-blank spelling is rejected: %s" % ref.kind,
+                 dict(std=std, source=mk(1)))]
+    for nb in ((0, 2, 5) if optional else (2, 5)):
+        o = fp.parse(mk(nb), std=std)
+        if o.kind != "tree" or fp.canon_repr(o.tree) != fp.canon_repr(ref.tree):
+            out.append(("extra_blanks_in_compound_keyword:" + name,
+                        "%d blanks between the keywords: %s instead of the tree of the one-blank spelling" % (nb, o.kind),
+                        dict(std=std, source=mk(nb), reference=mk(1))))
+    return out
+
+
 KNOWN_PROBES = [
     ("extra_blanks_in_compound_keyword:end_block_data", "block data bd\ncommon /c/ x\nend  block    data bd\n", "f2003"),
     ("extra_blanks_in_compound_keyword:error_stop", "program p\nerror    stop\nend program p\n", "f2008"),
@@ -129,17 +196,21 @@ def run(ctx):
             failures.append(("harness_error", r[:300], dict(job=job)))
         else:
             failures += [(s, d, dict(rep, job=list(job))) for s, d, rep in r]
-    import fp
-    for sig, src, std in KNOWN_PROBES:
-        if fp.parse(src, std=std).kind != "tree":
-            failures.append((sig, "recorded finding still present", dict(source=src, std=std)))
-    e2e = dict(cases=nsmall + len(jobs) + len(KNOWN_PROBES), distinct=nsmall + len(set(jobs)), exhaustive_small=nsmall,
+    ncomp = 0
+    for name, (st, r) in zip(sorted(COMPOUND), pool.pmap(compound_probe, sorted(COMPOUND), chunksize=4)):
+        ncomp += 3
+        if st != "ok":
+            failures.append(("harness_error", r[:300], dict(probe=name)))
+        else:
+            failures += [(s, d, dict(rep, probe=name)) for s, d, rep in r]
+    e2e = dict(cases=nsmall + len(jobs) + ncomp, distinct=nsmall + len(set(jobs)) + ncomp, exhaustive_small=nsmall,
                failures=failures,
                rule="(a) six small statements: EVERY single break point (each token boundary, each position inside "
                     "each literal) x leading '&' x 5 kinds of lines in between x trailing comment x indentation: "
                     "same items as the one-line form; (b) generated programs in random layouts (continuations, "
                     "comments, ';' joins, indentation, keyword case): tree(L(P)) == tree(canonical(P)) up to case "
-                    "when the case was changed",
+                    "when the case was changed; (c) %d pairs of adjacent keywords written with 0 (where the standard makes "
+                    "the blank optional), 2 and 5 blanks: the tree of the one-blank spelling" % len(COMPOUND),
                samples=[dict(job=list(jobs[0]))])
     return common.finish(ctx, proof, corr, e2e, extra_assumptions=[
         "proved for the reader model: exact joining of continuation pieces free of quotes/'!'/'&', transparency of "
@@ -153,6 +224,8 @@ def replay(ctx, data):
     import fp
     if "job" in data:
         return not check_program(tuple(data["job"]))
+    if "probe" in data:
+        return not compound_probe(data["probe"])
     if "reference" in data:
         ref = [(layout.squeeze(it.line), it.label, it.name) for it in fp.reader(data["reference"] + "\n", free=True)]
         got = [(layout.squeeze(it.line), it.label, it.name) for it in fp.reader(data["source"], free=True)]
